@@ -29,6 +29,9 @@ def configs(prop, tier):
         return [dict(MaxLen=3, LazyC=True, Mixin='"msgpack"'), dict(MaxLen=3, LazyC=True, LazyInner=True, Mixin='"orjson"')]
     if prop == "C08":
         return [dict(MaxLen=L - 1, LazyC=True, KwFlags=True), dict(MaxLen=L - 1, KwFlags=True)]
+    if prop == "C10":
+        # the format dialect is the LOWEST level: histories mixing to_dict / to_msgpack with and without call dialects
+        return [dict(MaxLen=L, Mixin='"msgpack"')]
     raise KeyError(prop)
 
 
@@ -95,6 +98,9 @@ def run_into(rep, prop, tier, seed):
                 rep.selftests[f"{mode}_cache_refuted_by_TLC"] = "Faithful" in str(e) or "CacheOwn" in str(e)
         from harness.checks import c13_formats
         c13_formats.run(rep, tier)
+        # random configured families: calls with and without dialects follow each other in random order on one class
+        from harness.checks import conf_props
+        conf_props.run_into(rep, "C13", tier, seed)
     if prop == "C14":
         try:
             rd = core.run_mc_with_table("MC_SysG", wd, GTABLE, cfg=core.cfg_text("MC_SysG.cfg", MaxLen=4, SpecKeyMode='"equal"'), timeout=900)
